@@ -20,8 +20,9 @@ REQUIRED = ['evaluations', 'renders_checked', 'kind:png', 'kind:pbm', 'kind:pam'
             'kind:ans', 'kind:compact', 'scale_lt_1_refused', 'png_depth:1', 'png_transparent']
 TIMEOUT = {'quick': 900, 'thorough': 7200}
 
-NAMED = ['black', 'white', 'red', 'blue', 'yellow', 'navy', 'gold', 'Olive', 'DARKRED', 'steelblue', 'grey']
-HEX = ['#000', '#fff', '#abc', '#123456', '#FFFFFF', '#000000', '#0f0', '#fe12dc', '#010203']
+NAMED = ['black', 'white', 'red', 'blue', 'yellow', 'navy', 'gold', 'Olive', 'DARKRED', 'steelblue', 'grey', 'aliceblue',
+         'antiquewhite', 'aqua', 'aquamarine', 'azure', 'yellowgreen', 'whitesmoke']
+HEX = ['#000', '#fff', '#abc', '#123456', '#FFFFFF', '#000000', '#0f0', '#fe12dc', '#010203', '#f0f8ff', '#faebd7', '#aabbcd', '#112234']
 HEXA = ['#12345680', '#abcd', '#00000010', '#ffffff00', '#11223344', '#000f', '#abcdefff']
 TUP = [(1, 2, 3), (255, 255, 255), (0, 0, 0), (200, 100, 50), (18, 52, 86)]
 TUPA = [(1, 2, 3, 4), (10, 20, 30, 128), (0, 0, 0, 0), (255, 255, 255, 254), (9, 8, 7, 255)]
@@ -49,11 +50,13 @@ def gen_cases(tier, seed):
         if kind not in ('txt', 'ans', 'compact'):
             r = rng.random()
             if r < 0.7:
-                kw['scale'] = rng.choice([1, 2, 3, 5, 7])
+                kw['scale'] = rng.choice([1, 2, 3, 4, 5, 7, 8, 8, 16])
             elif r < 0.9:
                 kw['scale'] = rng.choice([2.9, 1.5, 3.0, 1.999, 4.2])
             if not isinstance(v, str) and v > 12 and kw.get('scale', 1) > 3:
                 kw['scale'] = 2
+            if not isinstance(v, str) and v > 5 and kw.get('scale', 1) > 8:
+                kw['scale'] = 8
         if rng.random() < 0.7:
             kw['border'] = rng.choice([None, 0, 1, 2, 3, 5, 7])
         if kind == 'png':
